@@ -1,6 +1,7 @@
 //! Engine G (grid explorer) and P (process explorer) of the islamic-prayer-times verification
 //! harness. Usage: ipt-grid check <ID> <quick|thorough> | ipt-grid replay <path>
 mod common;
+mod history;
 mod refm;
 mod c01;
 mod c02;
@@ -106,7 +107,12 @@ fn main() {
             ctx.replay_mode = true;
             ctx.known.clear();
             println!("replaying {} clause={} case={}", id, clause, doc["case"]);
-            replay(&ctx, &clause, &doc["case"]);
+            if clause == "result_depends_on_previous_calls" {
+                c07::install_quiet_hook();
+                history::replay(&ctx, &doc["case"]);
+            } else {
+                replay(&ctx, &clause, &doc["case"]);
+            }
             let n = ctx.viol_total.load(std::sync::atomic::Ordering::Relaxed);
             if n > 0 {
                 println!("REPRODUCED property={} ({} finding(s))", id, n);
